@@ -120,6 +120,26 @@ pub fn space_knn(
 // only be instantiated with `D = ()`; these integrals are usable with both the
 // plain and the `*_with_data` entry points.
 
+/// Fault injection for the tagged integrals below: a user-supplied integral may panic in the
+/// middle of a cell's decomposition, and a caller may catch that and carry on. Packed as
+/// `(cell index + 1) << 32 | call number`; 0 = off.
+static INJECTED_PANIC: std::sync::atomic::AtomicU64 = std::sync::atomic::AtomicU64::new(0);
+
+/// Make `TaggedCell::collect` / `TaggedFace::collect` panic at their `call`-th invocation
+/// (1-based) for cell `cell`; `None` switches the fault off.
+pub fn set_injected_panic(at: Option<(usize, usize)>) {
+    let v = at.map_or(0, |(cell, call)| ((cell as u64 + 1) << 32) | (call as u64 & 0xffff_ffff));
+    INJECTED_PANIC.store(v, Ordering::SeqCst);
+}
+
+#[inline]
+fn injected_panic(cell: usize, call: usize) {
+    let v = INJECTED_PANIC.load(Ordering::Relaxed);
+    if v != 0 && (v >> 32) == cell as u64 + 1 && (v & 0xffff_ffff) == call as u64 {
+        panic!("verif: injected panic in a user-supplied integral (cell {}, call {})", cell, call);
+    }
+}
+
 /// Cell integral recording the index of the cell it was initialised for, the
 /// number of tetrahedra it was fed and that cell's volume.
 #[derive(Clone, Debug, Default)]
@@ -140,6 +160,7 @@ impl CellIntegral for TaggedCell {
 
     fn collect(&mut self, v0: DVec3, v1: DVec3, v2: DVec3, gen: DVec3) {
         self.tets += 1;
+        injected_panic(self.idx, self.tets);
         self.volume += crate::geometry::signed_volume_tet(v0, v1, v2, gen);
     }
 
@@ -170,6 +191,7 @@ impl FaceIntegral for TaggedFace {
 
     fn collect(&mut self, v0: DVec3, v1: DVec3, v2: DVec3, gen: DVec3) {
         self.tris += 1;
+        injected_panic(self.cell_idx, self.tris);
         self.area += crate::geometry::signed_area_tri(v0, v1, v2, gen);
     }
 
